@@ -93,15 +93,38 @@ ReadVal(fm) ==
 \* one step of XlsxCellReader::next_cell per XML token; st = [row_index, col_index, out]
 \* (expand_empty_elements: an empty <row/> is Start followed by End)
 RInit == [row_index |-> 0, col_index |-> 0, out |-> <<>>]
-RStep(st, t) ==
+\* the cursor machine, parameterised by the typing of a cell token
+RStepWith(st, t, Val(_)) ==
   CASE t.k = "row"      -> [st EXCEPT !.row_index = IF t.x THEN t.r ELSE @]
     [] t.k = "rowend"   -> [st EXCEPT !.row_index = @ + 1, !.col_index = 0]
     [] t.k = "emptyrow" -> [st EXCEPT !.row_index = (IF t.x THEN t.r ELSE @) + 1, !.col_index = 0]
     [] t.k = "c"        -> LET pos == IF t.x THEN t.p ELSE <<st.row_index, st.col_index>>
-                               val == ReadVal(t)
+                               val == Val(t)
                            IN [st EXCEPT !.col_index = pos[2] + 1,
                                          !.out = IF val = Empty THEN @ ELSE Append(@, <<pos, val>>)]
     [] OTHER            -> st
+RStep(st, t) == RStepWith(st, t, ReadVal)
+
+\* COARSE-KIND typing (fixture-driven traces: real-world files tokenised by harness/src/fixtures.rs).
+\* A cell token carries t, the children in document order `kids` (a sequence over "f" "v" "is"),
+\* vk = lexical class of the <v> text ("none" absent, "empty", "num" a decimal numeral, "text")
+\* and isk ("none" | "text").  Every child overwrites `value` (read_value): <f> -> Empty,
+\* <is> -> String, <v> -> read_v by the t attribute.  Values are compared by kind only:
+\* n (Int / Float / DateTime: the date style is resolved elsewhere, C10), s, b, e, iso.
+KindV(t) ==
+  CASE t.t = "s" -> <<"s">> [] t.t = "b" -> <<"b">> [] t.t = "e" -> <<"e">> [] t.t = "d" -> <<"iso">>
+    [] t.t = "str" -> <<"s">>
+    [] t.t = "n" -> IF t.vk = "empty" THEN Empty ELSE <<"n">>
+    [] t.t = None -> IF t.vk = "num" THEN <<"n">> ELSE <<"s">>
+    [] OTHER -> <<"error">>
+RECURSIVE KindFold(_, _, _)
+KindFold(t, i, val) ==
+  IF i > Len(t.kids) THEN val
+  ELSE KindFold(t, i + 1, CASE t.kids[i] = "f" -> Empty
+                            [] t.kids[i] = "v" -> KindV(t)
+                            [] t.kids[i] = "is" -> IF t.isk = "text" THEN <<"s">> ELSE Empty)
+KindVal(t) == KindFold(t, 1, Empty)
+RStepK(st, t) == RStepWith(st, t, KindVal)
 
 --------------------------------------------------------------------------
 (* geometry *)
